@@ -47,7 +47,12 @@ def gen_set(rng, n, dim, kind, shift=0.0):
         a = rng.integers(0, 7, size=(n, dim)).astype(float)
     else:                            # "cont": dyadic, practically no ties
         a = rng.integers(-512, 513, size=(n, dim)) / 256.0
-    return a + shift
+    a = a + shift
+    if kind != "cont" and n and rng.random() < 0.25:
+        # negative zeros (np.round(-0.3), products with 0): the same point as +0.0 — pooling, membership and distances must not tell them apart
+        z = (a == 0) & (rng.random(a.shape) < 0.5)
+        a = np.where(z, -0.0, a)
+    return a
 
 
 def gen_pair(rng, idx):
@@ -91,6 +96,8 @@ def gen_sequence(rng, idx):
     dim = int(rng.choice([1, 2]))
     k = int(rng.choice([1, 2, 3, 5], p=[0.15, 0.4, 0.15, 0.3]))   # k = 1: adjacency = identity, every distance is 0 or 1
     st = int(rng.choice([5, 30]))
+    if idx % 11 == 4:
+        st = int(rng.choice([150, 101, 250]))          # more re-assignments than any internal block size, and not a multiple of one
     alpha = float(rng.choice([0.01, 0.05, 0.2, 0.5, 0.7]))
     nb = int(rng.integers(2, 9))
     ref = gen_set(rng, int(rng.integers(2, 41)), dim, kind)
@@ -406,7 +413,8 @@ def compare_nnsp(ctx, case_id, case, o, out):
         return
     r = parse_kv(out, ["D", "v1", "v2", "knn", "nnps", "dist"])
     n = int(r["head"][1])
-    if n != len(o["D"]) or r["D"] != [core.f2b(x) for x in o["D"].ravel()]:
+    # the sign of a zero coordinate is not part of a point's identity (0.0 == -0.0): which representative survives pooling is left free
+    if n != len(o["D"]) or [core.f2b(core.b2f(x) + 0.0) for x in r["D"]] != [core.f2b(float(x) + 0.0) for x in o["D"].ravel()]:
         mm("D", o["D"].tolist(), [core.b2f(x) for x in r["D"]]); return
     v1 = "".join("1" if x == 1.0 else "0" for x in o["v1"])
     v2 = "".join("1" if x == 1.0 else "0" for x in o["v2"])
